@@ -459,6 +459,8 @@ def elabExpr (fuel : Nat) (e : SExpr) : EM Val :=
           let v ← elabExpr fu a
           let v' ← match pty, v with
             | "int", .int k => pure (Val.int k)
+            -- int <-> Signal coercion at call sites: a signal argument for an int parameter is a signal in the body
+            | "int", .sig n ty => pure (Val.sig n ty)
             | "int", _ => fail .kind s!"parameter '{pname}' of '{f}' needs an integer"
             | "Signal", .sig n ty => pure (Val.sig n ty)
             | "Signal", .int k => do
@@ -479,8 +481,10 @@ def elabExpr (fuel : Nat) (e : SExpr) : EM Val :=
       elabStmts fuel fd.body
       let s' ← get
       let ret := s'.retVal.getD .void
-      -- names the callee defined globally do not exist: restore the caller's scopes
-      set { s' with scopes := saved, callStack := s.callStack, retVal := savedRet }
+      -- the callee's frame disappears; the global frame keeps what the callee did to it
+      let global' := match s'.scopes.getLast? with | some g => [g] | none => []
+      set { s' with scopes := if saved.length ≤ 1 then global' else saved.dropLast ++ global',
+                    callStack := s.callStack, retVal := savedRet }
       pure ret
   | .unknown w => fail .unsupported s!"unsupported construct {w}"
 
@@ -532,6 +536,7 @@ def elabStmt (fuel : Nat) (st : SStmt) : EM Unit :=
         pure (Val.sig n t)
       | "Signal", _ => fail .kind s!"'{name}' is declared Signal but its value is not a signal"
       | "Bundle", .bundle n ts => pure (Val.bundle n ts)
+      | "Bundle", .sig n t => pure (Val.bundle n (some [t]))
       | "Bundle", _ => fail .kind s!"'{name}' is declared Bundle but its value is not a bundle"
       | "Entity", .entity id => pure (Val.entity id)
       | "Entity", _ => fail .kind s!"'{name}' is declared Entity but its value is not an entity"
@@ -615,7 +620,9 @@ def elabIters (fuel : Nat) (it : String) (vals : List I32) (body : List SStmt) :
     let s ← get
     set { s with scopes := [(it, Val.int v)] :: s.scopes }
     elabStmts fuel body
-    modify (fun s' => { s' with scopes := s.scopes })
+    -- the iteration's own frame (iterator and body-local names) disappears; re-bindings of outer
+    -- entity variables made by the body persist
+    modify (fun s' => { s' with scopes := s'.scopes.drop 1 })
     elabIters fuel it rest body
 
 def elabStmts (fuel : Nat) (sts : List SStmt) : EM Unit :=
